@@ -190,20 +190,138 @@ class Fn:
         return out
 
 
-def translate(path, names):
+class FnZQ(Fn):
+    """Integer/float mode for ebb_calc: arguments are integers (Z); `/` and float literals produce rationals (Q).
+    An expression is integer-valued when it is built from integer names and literals with + - *, int(), round(), math.ceil(),
+    abs() / max() of integers, or a call of a translated integer function; otherwise it is translated in Q, with integer leaves
+    injected (iz).  int(<int> / <int literal>) is Python's truncating quotient: Z.quot (exact in floats while |value| < 2^53)."""
+    def __init__(self, node, known):
+        Fn.__init__(self, node, known)
+        self.zenv = set(x.arg for x in node.args.args)          # integer-valued names
+        self.qenv = set()
+
+    def is_z(self, e):
+        if isinstance(e, ast.Name): return e.id in self.zenv
+        if isinstance(e, ast.Constant): return isinstance(e.value, int) and not isinstance(e.value, bool)
+        if isinstance(e, ast.UnaryOp) and isinstance(e.op, ast.USub): return self.is_z(e.operand)
+        if isinstance(e, ast.BinOp) and isinstance(e.op, (ast.Add, ast.Sub, ast.Mult)): return self.is_z(e.left) and self.is_z(e.right)
+        if isinstance(e, ast.Call):
+            f = self.fname(e)
+            if f in ("int", "round", "math.ceil", "math.floor"): return True
+            if f in ("abs", "max", "min"): return all(self.is_z(a) for a in e.args)
+            if f in self.known: return True
+        return False
+
+    def fname(self, e):
+        if isinstance(e.func, ast.Name): return e.func.id
+        if isinstance(e.func, ast.Attribute) and isinstance(e.func.value, ast.Name): return e.func.value.id + "." + e.func.attr
+        raise Unsupported("call at line %d" % e.lineno)
+
+    def ez(self, e):
+        """e as an integer (Z) term"""
+        if isinstance(e, ast.Name) and e.id in self.zenv: return e.id
+        if isinstance(e, ast.Constant) and self.is_z(e): return "%d" % e.value if e.value >= 0 else "(%d)" % e.value
+        if isinstance(e, ast.UnaryOp) and isinstance(e.op, ast.USub): return "(- %s)" % self.ez(e.operand)
+        if isinstance(e, ast.BinOp) and self.is_z(e):
+            return "(%s %s %s)" % (self.ez(e.left), {ast.Add: "+", ast.Sub: "-", ast.Mult: "*"}[type(e.op)], self.ez(e.right))
+        if isinstance(e, ast.Call) and not e.keywords:
+            f, a = self.fname(e), e.args
+            if f == "int" and len(a) == 1:
+                x = a[0]
+                if self.is_z(x): return self.ez(x)
+                if isinstance(x, ast.BinOp) and isinstance(x.op, ast.Div) and self.is_z(x.left) and isinstance(x.right, ast.Constant) \
+                        and isinstance(x.right.value, int) and x.right.value > 0:
+                    return "(Z.quot %s %d)" % (self.ez(x.left), x.right.value)
+                return "(Qtrunc (%s)%%Q)" % self.eq(x)
+            if f == "round" and len(a) == 1: return self.ez(a[0]) if self.is_z(a[0]) else "(Qround_he (%s)%%Q)" % self.eq(a[0])
+            if f == "math.ceil" and len(a) == 1: return self.ez(a[0]) if self.is_z(a[0]) else "(Qceiling (%s)%%Q)" % self.eq(a[0])
+            if f == "math.floor" and len(a) == 1: return self.ez(a[0]) if self.is_z(a[0]) else "(Qfloor (%s)%%Q)" % self.eq(a[0])
+            if f == "abs" and len(a) == 1 and self.is_z(a[0]): return "(Z.abs %s)" % self.ez(a[0])
+            if f in ("max", "min") and len(a) >= 2 and all(self.is_z(x) for x in a):
+                out = self.ez(a[0])
+                for x in a[1:]: out = "(Z.%s %s %s)" % (f, out, self.ez(x))
+                return out
+            if f in self.known: return "(t_%s %s)" % (f, " ".join(self.ez(x) for x in a))
+        raise Unsupported("integer expression at line %d" % e.lineno)
+
+    def eq(self, e):
+        """e as a rational (Q) term"""
+        if self.is_z(e) and not isinstance(e, ast.BinOp):
+            if isinstance(e, ast.Constant): return _q(e.value)
+            return "iz %s" % self.ez(e) if isinstance(e, ast.Name) else "iz %s" % self.ez(e)
+        if isinstance(e, ast.Name) and e.id in self.qenv: return e.id
+        if isinstance(e, ast.Constant) and isinstance(e.value, float): return _q(e.value)
+        if isinstance(e, ast.UnaryOp) and isinstance(e.op, ast.USub): return "(- %s)" % self.eq(e.operand)
+        if isinstance(e, ast.BinOp):
+            ops = {ast.Add: "+", ast.Sub: "-", ast.Mult: "*", ast.Div: "/"}
+            if type(e.op) not in ops: raise Unsupported("operator at line %d" % e.lineno)
+            l, r = self.eq(e.left), self.eq(e.right)
+            # left-nested chains print without the parentheses the printer of the hand model omits
+            return "%s %s %s" % (l if self.loose(e.left, e.op, True) else "(%s)" % l, ops[type(e.op)], r if self.loose(e.right, e.op, False) else "(%s)" % r)
+        if isinstance(e, ast.Call) and self.fname(e) == "abs" and len(e.args) == 1: return "Qabs (%s)" % self.eq(e.args[0])
+        raise Unsupported("rational expression at line %d" % e.lineno)
+
+    @staticmethod
+    def loose(sub, op, left):
+        """can `sub` stand unparenthesised as the left / right operand of `op`?"""
+        if not isinstance(sub, ast.BinOp): return True
+        prec = lambda o: 1 if isinstance(o, (ast.Add, ast.Sub)) else 2
+        return prec(sub.op) > prec(op) or (left and prec(sub.op) == prec(op))
+
+    def expr(self, e):
+        if isinstance(e, ast.Compare):
+            parts, left = [], e.left
+            for op, right in zip(e.ops, e.comparators):
+                if self.is_z(left) and self.is_z(right):
+                    a, b = self.ez(left), self.ez(right)
+                    t = {ast.Lt: "%s <? %s", ast.LtE: "%s <=? %s", ast.Eq: "%s =? %s"}
+                    if type(op) in t: parts.append(t[type(op)] % (a, b))
+                    elif isinstance(op, ast.Gt): parts.append("%s <? %s" % (b, a))
+                    elif isinstance(op, ast.GtE): parts.append("%s <=? %s" % (b, a))
+                    elif isinstance(op, ast.NotEq): parts.append("negb (%s =? %s)" % (a, b))
+                    else: raise Unsupported("comparison at line %d" % e.lineno)
+                else:
+                    a, b = self.eq(left), self.eq(right)
+                    a = a if " " not in a else "(%s)" % a; b = b if " " not in b else "(%s)" % b
+                    if isinstance(op, ast.Lt): parts.append("Qltb %s %s" % (a, b))
+                    elif isinstance(op, ast.Gt): parts.append("Qltb %s %s" % (b, a))
+                    elif isinstance(op, ast.LtE): parts.append("Qleb %s %s" % (a, b))
+                    elif isinstance(op, ast.GtE): parts.append("Qleb %s %s" % (b, a))
+                    else: raise Unsupported("comparison at line %d" % e.lineno)
+                left = right
+            return "(" + " && ".join(parts) + ")"
+        if isinstance(e, ast.BoolOp):
+            return "(" + (" && " if isinstance(e.op, ast.And) else " || ").join(self.expr(v) for v in e.values) + ")"
+        if isinstance(e, ast.UnaryOp) and isinstance(e.op, ast.Not):
+            return "(negb %s)" % self.expr(e.operand)
+        if isinstance(e, ast.Constant) and isinstance(e.value, bool):
+            return "true" if e.value else "false"
+        return self.ez(e) if self.is_z(e) else "(%s)%%Q" % self.eq(e)
+
+    def value(self, target, e):
+        if self.is_z(e):
+            self.zenv.add(target); self.qenv.discard(target)
+            return self.ez(e)
+        self.qenv.add(target); self.zenv.discard(target)
+        return "(%s)%%Q" % self.eq(e)
+
+
+def translate(path, names, mode="q"):
     tree = ast.parse(open(path).read(), path)
     found = {n.name: n for n in tree.body if isinstance(n, ast.FunctionDef)}
     out = []
     for name in names:
         if name not in found:
             raise Unsupported("function %s not found in %s" % (name, path))
-        out.append(Fn(found[name], set(names)).definition())
+        out.append((Fn if mode == "q" else FnZQ)(found[name], set(names)).definition())
     return "\n\n".join(out) + "\n"
 
 
 if __name__ == "__main__":
     try:
-        sys.stdout.write(translate(sys.argv[1], sys.argv[2:]))
+        mode = "q"
+        if sys.argv[1] == "--zq": mode = "zq"; del sys.argv[1]
+        sys.stdout.write(translate(sys.argv[1], sys.argv[2:], mode))
     except Unsupported as e:
         sys.stderr.write("py2v: unsupported: %s\n" % e)
         sys.exit(3)
